@@ -420,6 +420,32 @@ def r_deriv_measures(repo, rep, R='R7.5'):
               % (sorted(hw), sorted(rw), sorted(hc), sorted(rc_)))
 
 
+def r_deriv_columns(repo, rep, R='R7.5'):
+    """the columns of the drawing are those of the leaf lines, which are laid out from the leaves alone: an inner node ends
+    where its last child ends -- the right edge it reports must not depend on its own category or rule"""
+    mod = repo.module('depccg/printer/deriv.py')
+    rec = mod.get('deriv_of.rec')
+    ps = [a.arg for a in rec.args.args]
+    pnode = ([x for x in ps if x in ('node', 'tree')] or ps[-1:])[0]
+    own = []
+    n = 0
+    for st, o in SymExec(rec, unroll=1, init_env={rec.name: ('func', rec.name, id(rec))}).run():
+        if o != 'return' or st.ret is None:
+            continue
+        conds = [(c, pol) for c, pol, _ in st.conds]
+        if (A(N(pnode), 'is_leaf'), True) in conds:
+            continue
+        n += 1
+        for x in subterms(st.ret):
+            if x[0] == 'attr' and x[1] == N(pnode) and x[2] in ('cat', 'op_symbol', 'op_string', 'word'):
+                own.append('%s.%s' % (pnode, x[2]))
+    w = '%s:%s deriv_of.rec' % (mod.rel, rec.lineno)
+    rep.check(n > 0 and not own, R, w, 'deriv:inner-width',
+              'an inner node reports the right edge of its children (%d paths)' % n,
+              'the right edge an inner node reports depends on %s: everything to its right is shifted off the word columns, which are laid out from the leaves alone'
+              % sorted(set(own)))
+
+
 def r_category_spelling(repo, rep, R='R7.4'):
     """encoders that spell categories in their own syntax keep every non-empty feature: the feature is omitted only when
     its text is empty (otherwise two different categories get one spelling)."""
@@ -675,6 +701,35 @@ def r_leaf_positions(repo, rep, R='R7.11'):
     rep.ok(R, 'depccg/printer/*', 'no encoder finds the position of a leaf or token by searching for an equal element (%d definitions scanned; embedded example fires)' % n)
 
 
+def r_flat_list(repo, rep, R='R7.3'):
+    """to_string accepts the n-best list of one sentence written flat ([t1, t2]): it is that one sentence (all trees under
+    sentence number 1), not one sentence per tree"""
+    mod = repo.module('depccg/printer/__init__.py')
+    fn = mod.get('to_string')
+    p0 = fn.args.args[0].arg
+    first_is_tree = ('call', N('isinstance'), (('sub', N(p0), C(0)), N('ScoredTree')), ())
+    wrapped = ('list', (N(p0),))
+    seen = ok = False
+    per_tree = []
+    for st, o in SymExec(fn, unroll=1).run():
+        if o == 'raise':
+            continue
+        pol = [pl for c, pl, _ in st.conds if c == first_is_tree]
+        v = st.env.get(p0)
+        if pol and pol[0]:
+            seen = True
+            if v == wrapped:
+                ok = True
+        if v is not None and v[0] in ('listcomp',) and any(x[0] == 'call' and x[1] == N('isinstance') and len(x[2]) == 2 and x[2][1] == N('ScoredTree')
+                                                          and x[2][0][0] == 'elem' for x in subterms(v)):
+            per_tree.append(show(v)[:80])
+    w = '%s:%s to_string' % (mod.rel, fn.lineno)
+    rep.check(seen and ok and not per_tree, R, w, 'to_string:flat-nbest-list',
+              'a flat list of scored trees is taken as the n-best list of one sentence',
+              'a flat list of scored trees is not wrapped as one sentence%s: the n-best trees of a sentence are numbered as separate sentences in every format'
+              % (' (each tree becomes a sentence of its own: %s)' % per_tree[0] if per_tree else ''))
+
+
 def r_extended_leaf(repo, rep, R='R7.12'):
     """the extended AUTO leaf record lists category, word, lemma, POS, entity, chunk, category -- the order its consumers
     (and the prolog / xml / json encoders, by name) give these annotations"""
@@ -702,8 +757,10 @@ def check(repo, rep, tier):
     r_conll_heads(repo, rep)
     r_polarity(repo, rep)
     r_numbering(repo, rep)
+    r_flat_list(repo, rep)
     r_traversal(repo, rep)
     r_deriv_measures(repo, rep)
+    r_deriv_columns(repo, rep)
     r_category_spelling(repo, rep)
     rep.rule('R7.8', 'the json encoder returns live dict structures that are serialised after all trees of a batch were encoded: the '
                      'records it fills are its own copies, never a token / tree object of the result (shared by the n-best trees of a sentence)')
